@@ -78,15 +78,20 @@ theorem kron_entry (A : Mat κ) {B : Mat κ} {q q' : Nat} (hB : IsMat B q q') (i
       apply hB.2
       rw [List.getD_eq_getElem?_getD, List.getElem?_eq_getElem hkB]
       simp
-    rw [getD_flatMap_uniform _ q' 0 ra (fun a _ => by simp [hBk]) j l hl]
     have hAi : A.getD i [] = ra := by simp [List.getD_eq_getElem?_getD, hA]
     rw [hAi]
+    generalize B.getD k [] = rb at hBk ⊢
+    rw [getD_flatMap_uniform _ q' 0 ra (fun a _ => by rw [length_map]; exact hBk) j l hl]
     cases hra : ra[j]? with
     | none => simp [List.getD_eq_getElem?_getD, hra]
     | some a =>
       simp only
-      have hlB : l < (B.getD k []).length := by rw [hBk]; exact hl
-      simp [List.getD_eq_getElem?_getD, hra, hlB]
+      have hlB : l < rb.length := by rw [hBk]; exact hl
+      have e1 : (rb.map fun b => a * b).getD l 0 = a * rb.getD l 0 := by
+        rw [List.getD_eq_getElem?_getD, getElem?_map, List.getD_eq_getElem?_getD, List.getElem?_eq_getElem hlB]
+        simp
+      have e2 : ra.getD j 0 = a := by rw [List.getD_eq_getElem?_getD, hra]; rfl
+      rw [e1, e2]
 
 /-! ## digit indices -/
 
